@@ -7,6 +7,8 @@ open Noir.Join (Bin Interleave)
 
 variable {α β : Type}
 
+set_option linter.unusedSimpArgs false
+
 /-! ### `drain` -/
 
 theorem drain_nil_left (ys : List (Elem β)) : drain ([] : List (Elem α)) ys = (⟨[], ys, false⟩, []) := by
@@ -20,7 +22,7 @@ theorem drain_cons (x : Elem α) (xs : List (Elem α)) (y : Elem β) (ys : List 
       match pair x y with
       | some p => ((drain xs ys).1, p :: (drain xs ys).2)
       | none => (⟨xs, ys, true⟩, []) := by
-  simp [drain]
+  rw [drain]; cases pair x y <;> rfl
 
 /-- in every state produced by `drain` one of the stashes is empty (unless it panicked) -/
 theorem drain_inv : ∀ (xs : List (Elem α)) (ys : List (Elem β)),
@@ -296,5 +298,164 @@ theorem farFree_interleave {γ : Type} {xs ys zs : List (Elem γ)} (h : Interlea
     intro hx hy
     simp only [farFree, List.all_cons, Bool.and_eq_true] at hy ⊢
     exact ⟨hy.1, ih hx hy.2⟩
+
+/-! ### runs -/
+
+theorem run_append : ∀ (es es' : List (Elem (Bin α β))) (s : State α β),
+    run s (es ++ es') = run s es ++ run (stateAfter s es) es' := by
+  intro es
+  induction es with
+  | nil => intro es' s; rfl
+  | cons e es ih => intro es' s; simp [run, stateAfter, ih]
+
+theorem stateAfter_append : ∀ (es es' : List (Elem (Bin α β))) (s : State α β),
+    stateAfter s (es ++ es') = stateAfter (stateAfter s es) es' := by
+  intro es
+  induction es with
+  | nil => intro es' s; rfl
+  | cons e es ih => intro es' s; simp [stateAfter, ih]
+
+theorem step_far (s : State α β) (hs : s.panicked = false) : step s .far = (State.init, [.far]) := by
+  simp [step, hs, State.init]
+
+theorem run_far (s : State α β) (hs : s.panicked = false) : run s [.far] = [.far] := by
+  simp [run, step_far s hs]
+
+/-! ### payloads -/
+
+theorem filterMap_value_dataOf {γ : Type} (l : List (Elem γ)) :
+    (dataOf l).filterMap Elem.value = l.filterMap Elem.value := by
+  induction l with
+  | nil => rfl
+  | cons e l ih =>
+    cases e <;> simp [dataOf, List.filter_cons, Elem.isData, Elem.value] at ih ⊢ <;> exact ih
+
+theorem lefts_data : ∀ (es : List (Elem (Bin α β))), ∀ x ∈ lefts es, x.isData = true := by
+  intro es
+  induction es with
+  | nil => intro x hx; simp [lefts] at hx
+  | cons e es ih =>
+    intro x hx
+    cases e with
+    | item b => cases b <;> simp [lefts] at hx <;> first | exact ih x hx | (rcases hx with rfl | hx; rfl; exact ih x hx)
+    | ts b t => cases b <;> simp [lefts] at hx <;> first | exact ih x hx | (rcases hx with rfl | hx; rfl; exact ih x hx)
+    | _ => simp [lefts] at hx <;> exact ih x hx
+
+theorem rights_data : ∀ (es : List (Elem (Bin α β))), ∀ x ∈ rights es, x.isData = true := by
+  intro es
+  induction es with
+  | nil => intro x hx; simp [rights] at hx
+  | cons e es ih =>
+    intro x hx
+    cases e with
+    | item b => cases b <;> simp [rights] at hx <;> first | exact ih x hx | (rcases hx with rfl | hx; rfl; exact ih x hx)
+    | ts b t => cases b <;> simp [rights] at hx <;> first | exact ih x hx | (rcases hx with rfl | hx; rfl; exact ih x hx)
+    | _ => simp [rights] at hx <;> exact ih x hx
+
+/-- if `ps` are the pairs of the zipped positions of `L` and `R`, their payloads are the zip of the payloads -/
+theorem values_of_pairs : ∀ (L : List (Elem α)) (R : List (Elem β)) (ps : List (Elem (α × β))),
+    (∀ x ∈ L, x.isData = true) → (∀ y ∈ R, y.isData = true) →
+    ps.map some = (List.zip L R).map pairU →
+    ps.filterMap Elem.value = List.zip (L.filterMap Elem.value) (R.filterMap Elem.value) := by
+  intro L
+  induction L with
+  | nil => intro R ps _ _ h; simp at h; simp [h]
+  | cons x L ih =>
+    intro R ps hL hR h
+    cases R with
+    | nil => simp at h; simp [h]
+    | cons y R =>
+      cases ps with
+      | nil => simp at h
+      | cons p ps =>
+        simp only [List.zip_cons_cons, List.map_cons, List.cons.injEq] at h
+        have hx := hL x List.mem_cons_self
+        have hy := hR y List.mem_cons_self
+        have ih' := ih R ps (fun z hz => hL z (List.mem_cons_of_mem _ hz))
+          (fun z hz => hR z (List.mem_cons_of_mem _ hz)) h.2
+        have hp := h.1
+        cases x <;> simp [Elem.isData] at hx <;> cases y <;> simp [Elem.isData] at hy <;>
+          simp [pairU, pair] at hp <;> subst hp <;> simp [Elem.value, ih']
+
+theorem map_fst_zip_take {γ δ : Type} : ∀ (l : List γ) (r : List δ),
+    (List.zip l r).map Prod.fst = l.take (List.zip l r).length := by
+  intro l
+  induction l with
+  | nil => intro r; simp
+  | cons x l ih => intro r; cases r with
+    | nil => simp
+    | cons y r => simp [ih r]
+
+theorem map_snd_zip_take {γ δ : Type} : ∀ (l : List γ) (r : List δ),
+    (List.zip l r).map Prod.snd = r.take (List.zip l r).length := by
+  intro l
+  induction l with
+  | nil => intro r; simp
+  | cons x l ih => intro r; cases r with
+    | nil => simp
+    | cons y r => simp [ih r]
+
+/-! ### plain inputs never panic -/
+
+def isPlain {γ : Type} : Elem γ → Bool
+  | .item _ => true
+  | _ => false
+
+theorem drain_plain : ∀ (xs : List (Elem α)) (ys : List (Elem β)),
+    (∀ x ∈ xs, isPlain x = true) → (∀ y ∈ ys, isPlain y = true) →
+    (drain xs ys).1.panicked = false ∧ (∀ x ∈ (drain xs ys).1.stash1, isPlain x = true) ∧
+      (∀ y ∈ (drain xs ys).1.stash2, isPlain y = true) := by
+  intro xs
+  induction xs with
+  | nil => intro ys _ hy; rw [drain_nil_left]; exact ⟨rfl, by simp, hy⟩
+  | cons x xs ih =>
+    intro ys hx hy
+    cases ys with
+    | nil => rw [drain_nil_right]; exact ⟨rfl, hx, by simp⟩
+    | cons y ys =>
+      have h1 := hx x List.mem_cons_self
+      have h2 := hy y List.mem_cons_self
+      rw [drain_cons]
+      cases x <;> simp [isPlain] at h1
+      cases y <;> simp [isPlain] at h2
+      simp only [pair]
+      exact ih ys (fun z hz => hx z (List.mem_cons_of_mem _ hz)) (fun z hz => hy z (List.mem_cons_of_mem _ hz))
+
+theorem stateAfter_plain : ∀ (es : List (Elem (Bin α β))) (s : State α β),
+    (∀ e ∈ es, ∀ b t, e ≠ .ts b t) →
+    (s.panicked = false ∧ (∀ x ∈ s.stash1, isPlain x = true) ∧ (∀ y ∈ s.stash2, isPlain y = true)) →
+    (stateAfter s es).panicked = false ∧ (∀ x ∈ (stateAfter s es).stash1, isPlain x = true) ∧
+      (∀ y ∈ (stateAfter s es).stash2, isPlain y = true) := by
+  intro es
+  induction es with
+  | nil => intro s _ h; exact h
+  | cons e es ih =>
+    intro s he h
+    simp only [stateAfter]
+    apply ih _ (fun e' he' => he e' (List.mem_cons_of_mem _ he'))
+    have hne := he e List.mem_cons_self
+    obtain ⟨hs, h1, h2⟩ := h
+    unfold step
+    simp only [hs, Bool.false_eq_true, ↓reduceIte]
+    cases e with
+    | item b =>
+      cases b with
+      | left a =>
+        exact drain_plain _ _ (by
+          intro x hx; rcases List.mem_append.mp hx with hx | hx
+          · exact h1 x hx
+          · simp at hx; subst hx; rfl) h2
+      | right a =>
+        exact drain_plain _ _ h1 (by
+          intro x hx; rcases List.mem_append.mp hx with hx | hx
+          · exact h2 x hx
+          · simp at hx; subst hx; rfl)
+      | leftEnd => exact ⟨hs, h1, h2⟩
+      | rightEnd => exact ⟨hs, h1, h2⟩
+    | ts b t => exact absurd rfl (hne b t)
+    | wm t => exact ⟨hs, h1, h2⟩
+    | flushBatch => exact ⟨hs, h1, h2⟩
+    | term => exact ⟨hs, h1, h2⟩
+    | far => exact ⟨rfl, by simp, by simp⟩
 
 end Noir.Zip
